@@ -159,9 +159,9 @@ def run(ctx, replay):
             for i in range(horizon):
                 behs.append({"cfg": sc, "pol": "db", "delays": [i], "src": "db"})
             pairs = [(i, j) for i in range(horizon) for j in range(i + 1, horizon)]
-            for (i, j) in (vlib.sample(ctx.rng, pairs, 500 if thorough else 60)):
+            for (i, j) in (vlib.sample(ctx.rng, pairs, 300 if thorough else 60)):
                 behs.append({"cfg": sc, "pol": "db", "delays": [i, j], "selrot": (i + j) % 2, "src": "db"})
-            for k in range(300 if thorough else 50):
+            for k in range(150 if thorough else 50):
                 behs.append({"cfg": sc, "pol": "rand", "seed": ctx.rng.randrange(1 << 30), "src": "rand"})
         for i, b in enumerate(behs):
             b["id"] = i + 1
